@@ -396,7 +396,7 @@ theorem toInstr_bcond {c : Code} {l : String} {cnd : Cond} (h : c.toInstr = some
 theorem toInstr_adr {c : Code} {l : String} {d : Reg} (h : c.toInstr = some (.adr d l)) :
     targetLabel c = some l ∧ ∀ l', c ≠ .BL l' := by
   cases c <;> simp [Code.toInstr, Option.bind_eq_some_iff] at h
-  obtain ⟨_, rfl⟩ := h; exact ⟨rfl, fun _ h => by cases h⟩
+  obtain ⟨_, _, _, rfl⟩ := h; exact ⟨rfl, fun _ h => by cases h⟩
 
 theorem target_of_toInstr {c : Code} {i : Instr} (h : c.toInstr = some i) {l : String} {extOk : Bool} {reach : Nat}
     (ht : i.target = some (l, extOk, reach)) :
